@@ -35,7 +35,7 @@ CHECKS = {
  "C18": ("model_checking", "explicit-state BFS over every delivery order of the C08 scenario family with the standstill-recovery bundle examined in every reached state (fresh real pool fed only the bundle)", "E2",
          "DESIGN.md §3 C18",
          "In every state of every order recover_from_standstill is triggered on the real pool: it must not panic (also before anything is finalized) nor change state; the bundle must contain certificates proving finalized_slot(), every certificate held for later slots and every own vote for later slots; every element must pass validation; a fresh real pool fed only the bundle must reach the same finalized_slot() and the same parents_ready for the following window.",
-         "Pool side only so far; the Votor forwarding part is checked with the E1 machinery (C05). 3 equal stakes, own validator 0."),
+         "Votor clause: a real Votor in four pruning states (fresh, final certificate far ahead, slots retired, window ahead of the bundle) is handed bundles for slots 1/2/3/200 and must broadcast every element. 3 equal stakes, own validator 0."),
  "C05": ("model_checking", "explicit-state BFS (depth-bounded) over event sequences of one real node core (real PoolImpl + real Votor, own broadcasts looping back through the network) with a monitor automaton over the node's emitted votes", "E1",
          "DESIGN.md §3 C05",
          "All sequences up to the depth bound of foreign votes/certificates (other validators adversarial, one foreign vote = 45% stake), block arrivals (several per slot, children before parents), InvalidBlock/FirstShred, timeouts in timer order, loop-back deliveries of the node's own broadcasts and Votor queue lag are executed on the real Votor+Pool; every vote the node emits is judged by the monitor (one initial vote per slot, parent rule, finalize only for the own-notarized block after its notar certificate and never with skip/fallback votes, fallback votes only after the matching pool signal, own key) and fed to a fresh pool that must never call it slashable.",
